@@ -85,8 +85,10 @@ def classify(c):
     return ks
 
 
-def _build(c, variant=0, legacy=None):
-    from swh.model.model import Revision, RevisionType
+def _kwargs(c, variant=0, legacy=None):
+    """constructor keyword arguments exactly as a caller would give them (legacy: the extra
+    headers inside metadata, the attribute left empty)"""
+    from swh.model.model import RevisionType
     legacy = c["legacy"] if legacy is None else legacy
     extra = tuple((bytes.fromhex(k), bytes.fromhex(v)) for k, v in c["extra"])
     md = None
@@ -94,14 +96,19 @@ def _build(c, variant=0, legacy=None):
         md = {"extra_headers": [[k, v] for k, v in extra]}
     if variant == 1:
         md = dict(md or {}, other="x", n=[1, 2])
-    return Revision(message=None if c["message"] is None else bytes.fromhex(c["message"]),
-                    author=mk_person(c["author"], variant), committer=mk_person(c["committer"], variant),
-                    date=mk_tstz(c["date"]), committer_date=mk_tstz(c["committer_date"]),
-                    type=RevisionType.GIT if variant == 0 else RevisionType.MERCURIAL,
-                    directory=bytes.fromhex(c["directory"]),
-                    synthetic=c["synthetic"] if variant == 0 else not c["synthetic"],
-                    metadata=md, parents=tuple(bytes.fromhex(p) for p in c["parents"]),
-                    extra_headers=() if (legacy and extra) else extra)
+    return dict(message=None if c["message"] is None else bytes.fromhex(c["message"]),
+                author=mk_person(c["author"], variant), committer=mk_person(c["committer"], variant),
+                date=mk_tstz(c["date"]), committer_date=mk_tstz(c["committer_date"]),
+                type=RevisionType.GIT if variant == 0 else RevisionType.MERCURIAL,
+                directory=bytes.fromhex(c["directory"]),
+                synthetic=c["synthetic"] if variant == 0 else not c["synthetic"],
+                metadata=md, parents=tuple(bytes.fromhex(p) for p in c["parents"]),
+                extra_headers=() if (legacy and extra) else extra)
+
+
+def _build(c, variant=0, legacy=None):
+    from swh.model.model import Revision
+    return Revision(**_kwargs(c, variant, legacy))
 
 
 def impl(c):
